@@ -124,7 +124,7 @@ def numeric_hooks(obj):
         except Exception:
             continue
         if a.dtype == float and a.size and a.ndim <= 1:
-            out[name] = a
+            out[name] = np.atleast_1d(a)
     return out
 
 
